@@ -56,23 +56,15 @@ IMPORTS = ['Grist.Model.Predicate']
 warnings.filterwarnings('ignore', category=SyntaxWarning)
 
 
-GEN_IMPORTS = IMPORTS + ['Grist.Model.PredVisit', 'GristGen.Predicate_gen']
-# the generated TreeConverter (gen_visit None) against what the running parse_predicate_formula returned
+GEN_IMPORTS = IMPORTS + ['Grist.Model.PredVisit', 'GristGen.Predicate_gen', 'GristGen.ParseFormula_gen']
+# the generated parse_predicate_formula (which calls the generated TreeConverter) against what the running one returned
 GEN_DEFS = '''
 Definition c40_gen_ok (c : c40_case) : bool :=
-  match cc_ast c with
-  | None => true
-  | Some e =>
-      wf_expr e &&
-      match gen_visit None e [], cc_parse c with
-      | GOk (v, []), Ok w =>
-          pyval_eqb (match first_comment (cc_comments c) with
-                     | Some cm => PList [pstr "Comment"; v; PLeaf (CStr (py_strip (tl cm)))]
-                     | None => v
-                     end) w
-      | GFail (GErr a), Err b => cerr_eqb a b
-      | _, _ => false
-      end
+  match cc_ast c with Some e => wf_expr e | None => true end &&
+  match gen_parse_predicate_formula (cc_dollar_ok c) (cc_ast c) (cc_tokens c), cc_parse c with
+  | GOk v, Ok w => pyval_eqb v w
+  | GFail (GErr a), Err b => cerr_eqb a b
+  | _, _ => false
   end.
 '''
 
@@ -160,6 +152,7 @@ class Case(object):
       self.body, self.comments = None, []
     else:
       self.body, self.comments = predgen.parse_oracle(self.nodollar)
+      self.tokens = list(getattr(predgen.parse_oracle, 'tokens', [])) if self.body is not None else []
     self.reasons = sorted(predgen.unsupported_reasons(self.body)) if self.body is not None else None
     self.in_subset = predgen.in_eval_subset(self.body) if self.body is not None else False
 
@@ -234,9 +227,13 @@ def correspond(ctx):
     else:
       parse_term = '(Err %s)' % predgen.coq_err(r[1])
     jobs, _ = impl_json(c.text)
-    coq.append('{| cc_ast := %s; cc_comments := %s; cc_truthy := %s; cc_parse := %s; cc_json := %s; '
+    # all tokens when there is a comment (and for every fourth formula), else the comment tokens only
+    toks = c.tokens if (c.body is not None and (c.comments or i % 4 == 0)) else [(True, x) for x in c.comments]
+    coq.append('{| cc_dollar_ok := %s; cc_tokens := %s; cc_ast := %s; cc_comments := %s; cc_truthy := %s; cc_parse := %s; cc_json := %s; '
                'cc_supported := %s; cc_in_subset := %s |}'
-               % (ast_term, core.coq_list([core.strlit(x) for x in c.comments]), core.boollit(bool(c.text)),
+               % (core.boollit(c.nodollar is not None),
+                  core.coq_list(['(%s, %s)' % (core.boollit(b), predgen.S(t)) for b, t in toks]),
+                  ast_term, core.coq_list([core.strlit(x) for x in c.comments]), core.boollit(bool(c.text)),
                   parse_term, jobs, core.boollit(c.body is not None and not c.reasons), core.boollit(c.in_subset)))
     idx.append(i)
     nontrivial = c.body is not None and node_count(c.body) >= 2
@@ -277,7 +274,7 @@ def correspond(ctx):
                                         'differ': len(genbad)}
   for k in genbad[:5]:
     c = cs[idx[k]]
-    ctx.broken('translation:generated TreeConverter (pf2v) differs from the running parse_predicate_formula',
+    ctx.broken('translation:generated parse_predicate_formula / TreeConverter (pr2v, pf2v) differs from the running code',
                'formula %r: implementation %r' % (c.text, c.impl))
   for k in bad[:5]:
     c = cs[idx[k]]
